@@ -1,9 +1,213 @@
-import Oracle.Proto
-namespace Oracle.C17
+/-
+  Oracle.C17 — what the Lean definitions say for the C17 harness lines.
+  One output line per input line, in the syntax of the harness's right-hand
+  side, optionally followed by ` | <level-A facts>`:
 
-/-- placeholder: the oracle driver for C17 is not built yet -/
+    pack      → ok d<hex> | err <class>          | rt=must|free rej=must|free
+    unpack    → ok <v>… <next> | err <class>
+    packsize  → ok i<n> | err <class>
+    q         → ok <Model.quoteGo hex> <Spec.unquote of it: lerr | s<hex>>   | spec=<Spec.quote hex>
+    qi        → ok <Model.quoteInt hex> <Spec.evalNumLit of it>              | spec=<Spec.quoteInt hex>
+    qf        → ok <hex | ?> …
+    tn        → ok <Spec.showInt hex> <Spec value>  (integers; `?` for floats)
+    fmt       → ok d<hex> | err | ?
+-/
+import Oracle.Proto
+import GoluaVerif.Model.Unpack
+import GoluaVerif.Model.Quote
+import GoluaVerif.Spec.Printf
+namespace Oracle.C17
+open GoluaVerif Oracle
+open GoluaVerif.Model.Pack
+
+def bytesOfHex (s : String) : Option (List UInt8) := (parseHexBytes s).map (·.toList)
+def hexOf (b : List UInt8) : String := hexOfBytes ⟨b.toArray⟩
+
+def parseVal (s : String) : Option Val :=
+  if s == "t" || s == "F" || s == "n" then some .bad else
+  match V.parse s with
+  | some (.int n) => some (.int n)
+  | some (.flt b) => some (.flt (BitVec.ofNat 64 b.toNat))
+  | some (.str b) => some (.str b.toList)
+  | _ => none
+
+def showVal : Val → String
+  | .int n => "i" ++ toString n.toInt
+  | .flt b => (V.flt (UInt64.ofNat b.toNat)).show
+  | .str s => "s" ++ hexOf s
+  | .bad => "t"
+
+def parseVals (ts : List String) : Option (List Val) := ts.mapM parseVal
+
+def packLine (ts : List String) : String :=
+  match ts with
+  | f :: vs =>
+    match bytesOfHex (f.drop 1).toString, parseVals vs with
+    | some fmt, some vals =>
+      let r := match pack fmt vals with
+        | .ok bs => "ok d" ++ hexOf bs
+        | .error e => "err " ++ e.name
+      let b (x : Bool) : String := if x then "1" else "0"
+      r ++ " | exact=" ++ b (exact fmt vals) ++ " ndx=" ++ b (noDanglingX fmt) ++ " rej=" ++ b (mustReject fmt vals) ++ " acc=" ++ b (mustAccept fmt vals) ++
+        " mal=" ++ b (malformed fmt) ++ " abad=" ++ b (alignBad fmt)
+    | _, _ => "bad-line"
+  | _ => "bad-line"
+
+def unpackLine (ts : List String) : String :=
+  match ts with
+  | [f, d, i] =>
+    match bytesOfHex (f.drop 1).toString, bytesOfHex (d.drop 1).toString, i.toInt? with
+    | some fmt, some data, some init =>
+      match normInit data.length init with
+      | .error e => "err " ++ e.name
+      | .ok i0 =>
+        (match unpack fmt data i0 with
+        | .ok (vs, j) => "ok " ++ " ".intercalate (vs.map showVal ++ ["i" ++ toString (j + 1)])
+        | .error .goPanic => "panic"
+        | .error e => "err " ++ e.name) ++ " | mal=" ++ (if malformed fmt then "1" else "0") ++ " abad=" ++ (if alignBad fmt then "1" else "0")
+    | _, _, _ => "bad-line"
+  | _ => "bad-line"
+
+def packsizeLine (ts : List String) : String :=
+  match ts with
+  | [f] =>
+    match bytesOfHex (f.drop 1).toString with
+    | some fmt =>
+      (match packsize fmt with
+      | .ok n => "ok i" ++ toString (BitVec.ofNat 64 n).toInt
+      | .error e => "err " ++ e.name) ++ " | mal=" ++ (if malformed fmt then "1" else "0") ++ " abad=" ++ (if alignBad fmt then "1" else "0")
+    | none => "bad-line"
+  | _ => "bad-line"
+
+def parseNp (s : String) : List Nat :=
+  ((s.drop 3).toString.splitOn ",").filterMap parseHexNat
+
+def qLine (ts : List String) : String :=
+  match ts with
+  | [sv, np] =>
+    match bytesOfHex (sv.drop 1).toString with
+    | some s =>
+      let nps := parseNp np
+      let isPrint := fun r => !nps.contains r
+      let q := Model.Quote.quoteGo isPrint s
+      let back := match Spec.Quote.unquote q with
+        | some b => "s" ++ hexOf b
+        | none => "lerr"
+      "ok " ++ hexOf q ++ " " ++ back ++ " | spec=" ++ hexOf (Spec.Quote.quote s)
+    | none => "bad-line"
+  | _ => "bad-line"
+
+def showNumVal : Spec.Quote.NumVal → String
+  | .int n => "i" ++ toString n.toInt
+  | .flt f => (V.flt (F64.toBits f)).show
+
+def qiLine (ts : List String) : String :=
+  match ts with
+  | [v] =>
+    match parseVal v with
+    | some (.int n) =>
+      let q := Model.Quote.quoteInt n
+      let back := match Spec.Quote.evalNumLit q with
+        | some x => showNumVal x
+        | none => "lerr"
+      "ok " ++ hexOf q ++ " " ++ back ++ " | spec=" ++ hexOf (Spec.Quote.quoteInt n)
+    | _ => "bad-line"
+  | _ => "bad-line"
+
+def qfLine (ts : List String) : String :=
+  match ts with
+  | [v] =>
+    match parseVal v with
+    | some (.flt b) =>
+      let f := F64.decode b
+      match f with
+      | .fin _ _ => "?" ++ " | spec=" ++ hexOf (Spec.Quote.quoteFloat f)
+      | _ =>
+        let q := Model.Quote.quoteFloat (fun _ => []) f
+        let back := match Spec.Quote.evalNumLit q with
+          | some x => showNumVal x
+          | none => "lerr"
+        "ok " ++ hexOf q ++ " " ++ back ++ " | spec=" ++ hexOf (Spec.Quote.quoteFloat f)
+    | _ => "bad-line"
+  | _ => "bad-line"
+
+def tnLine (ts : List String) : String :=
+  match ts with
+  | [v] =>
+    match parseVal v with
+    | some (.int n) =>
+      let s := Spec.Quote.showInt n
+      let back := match Spec.Quote.strToNumber s with
+        | some x => showNumVal x
+        | none => "n"
+      "ok " ++ hexOf s ++ " " ++ back
+    | some (.flt _) => "?"
+    | _ => "bad-line"
+  | _ => "bad-line"
+
+def fmtLine (ts : List String) : String :=
+  match ts with
+  | [d, v] =>
+    match bytesOfHex (d.drop 1).toString, parseVal v, V.parse v with
+    | some dir, some val, some raw =>
+      match Spec.Printf.parseDir dir with
+      | none => "?"
+      | some sp =>
+        let ch := Char.ofNat sp.verb.toNat
+        -- Lua 5.4 admits at most two digits of width and of precision
+        if sp.width.getD 0 ≥ 100 || sp.prec.getD 0 ≥ 100 then "err" else
+        let asInt : Option (Option I64) := match val with   -- some none = must be an error; none = unchecked
+          | .int n => some (some n)
+          | .flt b => some (floatToInt? b)
+          | .str _ => none
+          | .bad => some none
+        if ch = 's' then
+          let str : Option (List UInt8) := match raw with
+            | .str b => some b.toList
+            | .int n => some (Spec.Quote.showInt n)
+            | .bool true => some "true".toUTF8.toList
+            | .bool false => some "false".toUTF8.toList
+            | .nil => some "nil".toUTF8.toList
+            | _ => none
+          if sp.plus || sp.space || sp.hash || sp.zero then "?" else
+          match str with
+          | some b => "ok d" ++ hexOf (Spec.Printf.fmtStr sp b)
+          | none => "?"
+        else if ch = 'c' then
+          if sp.plus || sp.space || sp.hash || sp.zero || sp.prec.isSome then "?" else
+          match asInt with
+          | some (some n) => "ok d" ++ hexOf (Spec.Printf.fmtChar sp n)
+          | some none => "err"
+          | none => "?"
+        else
+          match asInt with
+          | some (some n) =>
+            match Spec.Printf.fmtInt sp n with
+            | some b => "ok d" ++ hexOf b
+            | none => "?"
+          | some none => if (Spec.Printf.fmtInt sp 0#64).isSome then "err" else "?"
+          | none => "?"
+    | _, _, _ => "bad-line"
+  | _ => "bad-line"
+
+def line (l : String) : String :=
+  let lhs := (l.splitOn " = ").headD ""
+  match (lhs.splitOn " ").filter (· ≠ "") with
+  | "pack" :: ts => packLine ts
+  | "unpack" :: ts => unpackLine ts
+  | "packsize" :: ts => packsizeLine ts
+  | "q" :: ts => qLine ts
+  | "qi" :: ts => qiLine ts
+  | "qf" :: ts => qfLine ts
+  | "tn" :: ts => tnLine ts
+  | "fmt" :: ts => fmtLine ts
+  | "fmt0" :: _ => "?"
+  | _ => "bad-line"
+
 def main (_args : List String) : IO UInt32 := do
-  IO.eprintln "oracle mode c17: not built"
-  return 2
+  let stdin ← IO.getStdin
+  let stdout ← IO.getStdout
+  forEachLine stdin fun l => stdout.putStrLn (line l)
+  return 0
 
 end Oracle.C17
